@@ -533,7 +533,16 @@ func (k *Keys) Sign(msg []byte, wantReject string) (sig []byte, trace []Attempt)
 		}
 		trace = append(trace, at)
 		take := at.Reject == ""
-		if wantReject != "" {
+		if len(wantReject) > 6 && wantReject[:6] == "kappa=" {
+			n := 0
+			for _, ch := range wantReject[6:] {
+				n = n*10 + int(ch-'0')
+			}
+			take = kappa == n && at.ZNorm <= Gamma1 && at.Hints <= Omega
+			if kappa > n {
+				return nil, trace
+			}
+		} else if wantReject != "" {
 			only := map[string]bool{"z": zBad && !r0Bad && !ct0Bad && !hBad,
 				"r0":    !zBad && r0Bad && !ct0Bad && !hBad,
 				"hints": !zBad && !r0Bad && !ct0Bad && hBad}[wantReject]
